@@ -233,7 +233,7 @@ def fn_props(case):
     return (True, None, viols)
 
 
-CONV = ["tagify", "str", "repr", "_repr_html_", "doc.render"]
+CONV = ["tagify", "str", "repr", "_repr_html_", "doc.render", "tagify+mutate-result"]
 SEQ_TREES = [
     J("Foo", [Etag("div", [["XJ", dep("a")]]), T("t")], [("p", Etag("span", [T("q"), dep("b")], ws=False))]),
     J("Foo", [["XJ", Etag("span", [T("Hello"), J("Foo", [T("world")]), dep("b2")], ws=False)]], [], "append"),
@@ -247,6 +247,18 @@ def conv(x, name):
     from htmltools import HTMLDocument
     if name == "tagify":
         return snap(x.tagify())
+    if name == "tagify+mutate-result":
+        # the result belongs to the caller: changing it must never reach later conversions
+        r = x.tagify()
+        s = snap(r)
+        for d in r.get_dependencies(dedup=False):
+            d.name = d.name + "-mutated"
+            d.all_files = not d.all_files
+            for sc in d.script:
+                sc["src"] = "mutated.js"
+        r.children.append("MUTATED")
+        r.attrs["data-mutated"] = "1"
+        return s
     if name == "str":
         return str(x)
     if name == "repr":
